@@ -84,6 +84,26 @@ def wf_cubes(T, layouts, wmax, kinds=(0, 1, 2, 3), edge_sets=None, H=8, rule=0, 
     return obs
 
 
+def p_subproject_edges(wmax=2, H=10, timeout=150, T=3):
+    """A sub-project task (an automatic task of its own class) as successor and as predecessor of every kind of dependency."""
+    obs = []
+    for k1 in (0, 1, 2, 3):
+        for k2 in (0, 1, 2, 3):
+            spec = {"tasks": [{"w": "$w0"}, {"w": "$w1", "subproject": True, "rate": 1}, {"w": "$w2"}], "edges": [[0, 1, k1], [1, 2, k2]],
+                    "teams": layout_workers("private", 3), "run": {"max_time": H}}
+            obs.append({"name": "subproject/0%s1+1%s2" % (KN[k1], KN[k2]), "harness": "sim", "cube": {"spec": spec},
+                        "params": [["w%d" % i, 0, wmax] for i in range(3)], "timeout": timeout})
+    return obs
+
+
+def with_decoy(obs, idx):
+    """The same members, with a second (never simulated) workflow object built over some of the same task objects."""
+    out = []
+    for ob in obs:
+        out.append(dict(ob, name="decoy%s/%s" % ("".join(map(str, idx)), ob["name"]), cube=dict(ob["cube"], spec=dict(ob["cube"]["spec"], decoy_wf=list(idx)))))
+    return out
+
+
 def p_double_edges(wmax=2, H=10, timeout=150):
     """Two dependencies of different kinds between the same pair of tasks (registered in both orders), behind a third task."""
     obs = []
@@ -491,6 +511,9 @@ def _obligations_for(prop, tier):
             obs += p_rules(rules=(0, 4, 5))
             obs += p_double_edges(2)
             obs += with_history(wf_cubes(3, ["private"], 2, name="kinds", edge_sets=[[(0, 1), (1, 2)], [(0, 1), (0, 2)]], kinds=(0, 1)), "after-backward", 1)
+            obs += p_subproject_edges(2)
+            obs += with_decoy(wf_cubes(3, ["private"], 2, name="kinds", edge_sets=[[(0, 1), (1, 2)]]), (0, 1))
+            obs += with_decoy(wf_cubes(3, ["private"], 2, name="kinds", edge_sets=[[(0, 1), (0, 2)]], kinds=(0, 2)), (1,))
         else:
             obs = wf_cubes(3, ["private", "shared2"], 3, name="kinds", H=12, timeout=900)
             obs += p_double_edges(3)
@@ -500,6 +523,9 @@ def _obligations_for(prop, tier):
             obs += p_rules(wmax=3, H=12, timeout=600)
             chain = [[(0, 1), (1, 2), (2, 3)], [(0, 1), (0, 2), (1, 3), (2, 3)]]
             obs += wf_cubes(4, ["private"], 2, kinds=(0, 1), edge_sets=chain, H=12, name="kinds4", timeout=900)
+            obs += p_subproject_edges(3, H=12, timeout=600)
+            obs += with_decoy(wf_cubes(3, ["private"], 3, name="kinds", edge_sets=[[(0, 1), (1, 2)], [(0, 1), (0, 2)]], H=12, timeout=600), (0, 1))
+            obs += with_decoy(wf_cubes(3, ["private"], 3, name="kinds", edge_sets=[[(0, 1), (1, 2)], [(0, 1), (0, 2)]], H=12, timeout=600), (1,))
         return obs
     if prop in ("C02", "C03", "C04", "C06"):
         obs = p_contention(thorough, H=12 if thorough else 8, timeout=900 if thorough else 150)
